@@ -284,6 +284,24 @@ def r02_6(run):
                                       and dotted(t.comparators[0]) == 'self.events' and src(t.left) == key)
                 run.ob('R02.6', hn, c, 'dispatch guarded by "name in self.events"', any(lab == 'T' for _, lab in guards), slot='dispatch-guard',
                        message='got_update reachable for names without listeners')
+    # exact payload: the text after the name and its one separator; whitespace-splitting collapses blank runs / blank first lines
+    rest = hn.params[2] if len(hn.params) > 2 else None
+    defs = local_defs(hn)
+    for c in calls_in(hn):
+        if callee_attr(c) != 'got_update' or not c.args:
+            continue
+        a = c.args[0]
+        r = receiver(c)
+        key = src(r.slice) if isinstance(r, ast.Subscript) else None
+        exact = isinstance(a, ast.Subscript) and dotted(a.value) == rest and isinstance(a.slice, ast.Slice) and a.slice.upper is None \
+            and a.slice.lower is not None and src(a.slice.lower).replace(' ', '') in ('len(%s)+1' % key, '1+len(%s)' % key)
+        roots = [a] + [d[1] for x in ast.walk(a) if isinstance(x, ast.Name) for d in defs.get(x.id, []) if d[0] in ('expr', 'elem') and isinstance(d[1], ast.AST)]
+        ws_split = any(isinstance(x, ast.Call) and callee_attr(x) in ('split', 'rsplit') and (not x.args or is_none(x.args[0])) for y in roots for x in ast.walk(y))
+        stripped = any(isinstance(x, ast.Call) and callee_attr(x) in ('strip', 'lstrip', 'rstrip') for y in roots for x in ast.walk(y))
+        verdict = True if exact else (False if (ws_split or stripped) else None)
+        run.ob('R02.6', hn, c, 'the listener receives exactly the text after "<NAME> "', verdict, slot='payload-exact',
+               message='the payload handed to listeners is %s%s' % (src(a)[:60], ': derived by whitespace splitting / stripping, so leading blanks or a blank first data line are lost'
+                                                                 if verdict is False else ' (shape not recognised)'))
     run.floor('R02.6', 'got_update calls in _handle_notify', k, 1)
     # nobody else calls got_update
     for u in run.idx.all_units():
@@ -309,6 +327,7 @@ RULES = [
 from ..selftest import M  # noqa: E402
 F = 'txtorcon/torcontrolprotocol.py'
 MUTANTS = [
+    M('payload-by-whitespace-split', F, "self.events[name].got_update(rest[len(name) + 1:])", "self.events[name].got_update(rest.split(None, 1)[1] if len(rest.split(None, 1)) > 1 else '')", ['R02.6']),
     M('event-falls-through', F, "            self._handle_notify(self.code, resp)\n            self.code = None\n            return\n", "            self._handle_notify(self.code, resp)\n", ['R02.1']),
     M('event-fires-defer', F, "            self._handle_notify(self.code, resp)\n", "            self._handle_notify(self.code, resp)\n            if self.defer:\n                self.defer.callback(resp)\n", ['R02.1']),
     M('event-code-not-reset', F, "            self._handle_notify(self.code, resp)\n            self.code = None\n", "            self._handle_notify(self.code, resp)\n", ['R02.1']),
